@@ -11,6 +11,8 @@ import (
 	gogoproto "github.com/cosmos/gogoproto/proto"
 
 	ammtypes "github.com/elys-network/elys/x/amm/types"
+	aptypes "github.com/elys-network/elys/x/assetprofile/types"
+	oracletypes "github.com/elys-network/elys/x/oracle/types"
 	ctypes "github.com/elys-network/elys/x/commitment/types"
 	lptypes "github.com/elys-network/elys/x/leveragelp/types"
 	mctypes "github.com/elys-network/elys/x/masterchef/types"
@@ -264,7 +266,34 @@ func GenGovKnob(h *History, g *G) *EnvAction {
 	}
 	var msg sdk.Msg
 	var what string
-	switch g.Pick("knob", 10) {
+	switch g.Pick("knob", 13) {
+	case 10:
+		d := w.Scenario.Denoms[g.Pick("knob/rminfo", len(w.Scenario.Denoms))]
+		msg, what = &oracletypes.MsgRemoveAssetInfo{Authority: gov, Denom: d}, "oracle remove asset info "+d
+	case 11:
+		if len(s.LPPools) == 0 {
+			return nil
+		}
+		lp := s.LPPools[g.Pick("knob/rmlppool", len(s.LPPools))]
+		msg, what = &lptypes.MsgRemovePool{Authority: gov, Id: lp.AmmPoolId}, fmt.Sprintf("leveragelp remove pool %d", lp.AmmPoolId)
+	case 12:
+		d := w.Scenario.Denoms[g.Pick("knob/apdenom", len(w.Scenario.Denoms))]
+		e, found := w.App.AssetprofileKeeper.GetEntry(w.ReadCtx(), d)
+		if !found {
+			return nil
+		}
+		m := &aptypes.MsgUpdateEntry{Authority: gov, BaseDenom: e.BaseDenom, Decimals: e.Decimals, Denom: e.Denom, Path: e.Path, IbcChannelId: e.IbcChannelId, IbcCounterpartyChannelId: e.IbcCounterpartyChannelId,
+			DisplayName: e.DisplayName, DisplaySymbol: e.DisplaySymbol, Network: e.Network, Address: e.Address, ExternalSymbol: e.ExternalSymbol, TransferLimit: e.TransferLimit, Permissions: e.Permissions,
+			UnitDenom: e.UnitDenom, IbcCounterpartyDenom: e.IbcCounterpartyDenom, IbcCounterpartyChainId: e.IbcCounterpartyChainId, CommitEnabled: e.CommitEnabled, WithdrawEnabled: e.WithdrawEnabled}
+		switch g.Pick("knob/apfield", 3) {
+		case 0:
+			m.Decimals = uint64([]int{0, 1, 6, 18, 30, 77}[g.Pick("knob/apdec", 6)])
+		case 1:
+			m.CommitEnabled = !m.CommitEnabled
+		default:
+			m.WithdrawEnabled = !m.WithdrawEnabled
+		}
+		msg, what = m, fmt.Sprintf("assetprofile entry %s decimals=%d commit=%v withdraw=%v", d, m.Decimals, m.CommitEnabled, m.WithdrawEnabled)
 	case 0:
 		if len(s.Pools) == 0 {
 			return nil
